@@ -31,7 +31,10 @@ Atoms == <<
   <<G_(G_(Rv, "owner"), "opt"), H_(G_(Rv, "owner"), "opt"), FALSE>>,
   <<G_(Pv, "n"), TT_, FALSE>>,
   <<B_("add", G_(G_(Pv, "mgr"), "n"), LitL(1)), H_(Pv, "mgr"), FALSE>>,      \* may overflow: allowed
-  <<G_(G_(G_(Rv, "owner"), "mgr"), "n"), H_(G_(Rv, "owner"), "mgr"), FALSE>>
+  <<G_(G_(G_(Rv, "owner"), "mgr"), "n"), H_(G_(Rv, "owner"), "mgr"), FALSE>>,
+  \* a tag key that is itself computed from (another) entity's data
+  <<B_("getTag", Pv, G_(G_(Rv, "owner"), "s")), B_("hasTag", Pv, G_(G_(Rv, "owner"), "s")), FALSE>>,
+  <<B_("getTag", G_(Rv, "owner"), G_(Pv, "s")), B_("hasTag", G_(Rv, "owner"), G_(Pv, "s")), FALSE>>
 >>
 NA == Len(Atoms)
 Use(i) == B_("less", Atoms[i][1], LitL(10))
